@@ -550,6 +550,8 @@ pub enum Outcome {
     Silent,
     Malformed,
     ChallengeThenSilent,
+    /// only the first datagram of a split reply arrives
+    Partial,
 }
 
 #[derive(Clone, Copy, Debug, PartialEq, Eq, Hash, PartialOrd, Ord)]
@@ -600,12 +602,14 @@ pub struct ValveServer {
     pub requests: Vec<(Kind, bool)>,
     pub unknown_requests: u32,
     pub split_id: u32,
+    /// the next answer loses everything after its first datagram
+    pub partial_next: bool,
     pub fixed_challenges: Vec<[u8; 4]>,
     /// pre-computed reply datagrams per kind (used instead of encoding at answer time)
     pub fixed_frags: [Option<Vec<Vec<u8>>>; 4],
     /// compressed form of the reply of a kind (used when its transport is SourceCompressed)
     pub compressed: [Option<Compressed>; 4],
-    current_kind: usize,
+    pub current_kind: usize,
     last_transport: &'static str,
 }
 
@@ -626,6 +630,7 @@ impl ValveServer {
             echoed_wrong: 0,
             requests: Vec::new(),
             unknown_requests: 0,
+            partial_next: false,
             fixed_challenges: Vec::new(),
             fixed_frags: [None, None, None, None],
             compressed: [None, None, None, None],
@@ -816,6 +821,14 @@ impl ValveServer {
                 seq.insert(at.min(seq.len()), frag);
             }
         }
+        if std::mem::take(&mut self.partial_next) {
+            // only the first datagram of a split answer gets through (a single datagram: nothing does)
+            if frags.len() > 1 {
+                seq.truncate(1);
+            } else {
+                seq.clear();
+            }
+        }
         for (rank, i) in seq.iter().enumerate() {
             cx.udp_send_after(from, frags[*i].clone(), rank as u64 * 10_000);
         }
@@ -884,6 +897,11 @@ impl Server for ValveServer {
                         self.pending[k] = None;
                         let m = self.malformed(cx, kind);
                         cx.udp_send(from, m);
+                    }
+                    Outcome::Partial => {
+                        self.pending[k] = None;
+                        self.partial_next = true;
+                        self.answer(cx, from, kind);
                     }
                     Outcome::ChallengeThenSilent => {
                         let c = self.next_challenge(cx);
